@@ -2,3 +2,4 @@ import Bmc.Proofs.C04
 #print axioms Bmc.Proofs.C04.accept_sound
 #print axioms Bmc.Proofs.C04.unauthenticated_or_foreign_is_retry
 #print axioms Bmc.Proofs.C04.accepted_satisfies_mac
+#print axioms Bmc.Proofs.C04.tampered_authcode_is_retry
